@@ -2,6 +2,7 @@
     Statements only; proofs are in Persist.v / Hist.v. *)
 From Coq Require Import List NArith ZArith Bool.
 From Mast Require Import Prim Key Tree KeyOrder Codec Store Diff World Erase Build Spec Canon Links Level Inv Hist Persist Reload DiffLinks PersistCount CostW WorldInv Clean CleanHist.
+From Mast Require Import ReloadB.
 Import ListNotations.
 
 (** persisting a tree that was not modified since it was loaded or persisted writes nothing at all
